@@ -35,6 +35,8 @@ type rec struct {
 	InWindow bool   `json:"in_window"`
 	SvcNT    int32  `json:"svc_nt,omitempty"`
 	Alt      bool   `json:"alt,omitempty"`
+	Alt2     bool   `json:"alt2,omitempty"`
+	SkewNs   int64  `json:"skew_ns"` // clock skew of the settings object that verified
 	// InWindowRet: the client time still passes the skew test of the settings used when the call returns
 	InWindowRet bool   `json:"in_window_at_return"`
 	ZoneMin     int    `json:"zone_min,omitempty"`
@@ -80,7 +82,7 @@ func run(tapeJSON json.RawMessage, res *core.Result) {
 			return
 		}
 	}
-	if tp.AltMs < 0 || tp.AltMs > 2*3600*1000 {
+	if tp.AltMs < 0 || tp.AltMs > 2*3600*1000 || tp.Alt2Ms < 0 || tp.Alt2Ms > 48*3600*1000 || (tp.Alt2Ms != 0 && (tp.Alt2Ms <= tp.AltMs || tp.Alt2Ms <= tp.SkewS*1000)) {
 		res.Verdict, res.Harness = "invalid", "alt skew"
 		return
 	}
@@ -111,6 +113,7 @@ func run(tapeJSON json.RawMessage, res *core.Result) {
 	}
 	rc := service.GetReplayCache(skew) // created by task 0; its clean-up goroutine becomes a task on first lock
 	altSkew := time.Duration(tp.AltMs) * time.Millisecond
+	alt2Skew := time.Duration(tp.Alt2Ms) * time.Millisecond
 	// a second settings object of the process becomes known to the cache when it first verifies
 	// (service.VerifyAPREQ asks for the cache with its own skew on every call)
 	recs := make([][]rec, len(tp.Tasks))
@@ -134,12 +137,15 @@ func run(tapeJSON json.RawMessage, res *core.Result) {
 						dlt = -dlt
 					}
 					useSkew := skew
-					if op.Alt && tp.AltMs != 0 && (tp.AltKt == "" || tp.AltKt == op.Svc || w == nil) {
+					if op.Alt2 && tp.Alt2Ms != 0 {
+						useSkew = alt2Skew
+						r.Alt2 = true
+					} else if op.Alt && tp.AltMs != 0 && (tp.AltKt == "" || tp.AltKt == op.Svc || w == nil) {
 						// (settings that override the keytab principal verify tickets of that service only)
 						useSkew = altSkew
 						r.Alt = true
 					}
-					r.SvcNT, r.ZoneMin = op.SvcNT, op.ZoneMin
+					r.SvcNT, r.ZoneMin, r.SkewNs = op.SvcNT, op.ZoneMin, int64(useSkew)
 					if w != nil {
 						r.Kvno = op.Kvno
 					}
@@ -181,6 +187,9 @@ func run(tapeJSON json.RawMessage, res *core.Result) {
 					d := skew + time.Duration(op.ClearS)*time.Second
 					if altSkew > skew {
 						d = altSkew + time.Duration(op.ClearS)*time.Second
+					}
+					if alt2Skew > skew && alt2Skew > altSkew {
+						d = alt2Skew + time.Duration(op.ClearS)*time.Second
 					}
 					simrt.Logf("invoke clear %v", d)
 					inv := simrt.NowNs()
@@ -281,8 +290,11 @@ func judge(tp *Tape, base time.Time, skew time.Duration, all []rec, res *core.Re
 			if rs[i].SvcNT != rs[0].SvcNT {
 				res.Probes["replay-under-other-name-type"]++
 			}
-			if rs[i].Alt != rs[0].Alt {
+			if rs[i].Alt != rs[0].Alt || rs[i].Alt2 != rs[0].Alt2 {
 				res.Probes["replay-through-other-settings"]++
+			}
+			if rs[i].Alt2 && !rs[0].Alt2 {
+				res.Probes["replay-through-third-settings-with-longest-skew"]++
 			}
 			if rs[i].ZoneMin != rs[0].ZoneMin {
 				res.Probes["replay-under-other-zone-encoding"]++
@@ -293,7 +305,7 @@ func judge(tp *Tape, base time.Time, skew time.Duration, all []rec, res *core.Re
 			if rs[i].Kvno != rs[0].Kvno {
 				res.Probes["replay-with-ticket-under-other-service-key"]++
 			}
-			if rs[i].Alt && !rs[0].Alt && tp.AltMs*1_000_000 > skewNs && rs[i].Invoke-(int64(time.Hour)+rs[i].CtUs*1000) > skewNs {
+			if rs[i].SkewNs > rs[0].SkewNs && rs[i].Invoke-(int64(time.Hour)+rs[i].CtUs*1000) > rs[0].SkewNs {
 				res.Probes["longer-skew-first-used-after-shorter-skew-elapsed"]++
 			}
 		}
@@ -418,19 +430,27 @@ func unjudgedReplay(tp *Tape, r rec, all []rec, skewNs int64) bool {
 	if !r.InWindowRet {
 		return true
 	}
-	altNs := tp.AltMs * 1_000_000
-	if !r.Alt || altNs <= skewNs {
+	if r.SkewNs <= skewNs {
 		return false
 	}
-	first := int64(-1)
+	// every first use of settings with a longer skew than the process's first settings may raise the
+	// longest skew known to the cache; what is older than that instant minus the skew that applied
+	// before (at least the first settings' skew) may have been forgotten already
+	ctNs := int64(time.Hour) + r.CtUs*1000 // client time on the run clock: the world starts one hour into the bubble
+	firstUse := map[int64]rec{}
 	for _, o := range all {
-		if o.Alt && (o.Out == "fresh" || o.Out == "replay") && (first < 0 || o.Invoke < first) {
-			first = o.Invoke
+		if o.SkewNs > skewNs && (o.Out == "fresh" || o.Out == "replay") {
+			if f, ok := firstUse[o.SkewNs]; !ok || o.Invoke < f.Invoke {
+				firstUse[o.SkewNs] = o
+			}
 		}
 	}
-	// client time on the run clock: the world starts one hour into the bubble
-	ctNs := int64(time.Hour) + r.CtUs*1000
-	return first >= 0 && r.Invoke <= first+altNs && first-ctNs > skewNs
+	for _, f := range firstUse {
+		if f.Invoke <= r.Return && f.Return-ctNs > skewNs && r.Invoke <= f.Return+f.SkewNs {
+			return true
+		}
+	}
+	return false
 }
 
 // classifyDouble names the history shape of a double acceptance (DESIGN 5.4).
@@ -448,7 +468,7 @@ func classifyDouble(acc, all []rec, skewNs, creation int64) string {
 		return "double-accept/rewritten-ticket-sname"
 	case a.Kvno != b.Kvno:
 		return "double-accept/ticket-sealed-under-another-key-of-the-service"
-	case b.Alt && !a.Alt && b.Invoke-(int64(time.Hour)+b.CtUs*1000) > skewNs:
+	case b.SkewNs > a.SkewNs && b.Invoke-(int64(time.Hour)+b.CtUs*1000) > a.SkewNs:
 		return "double-accept/longer-skew-of-second-settings-first-used-late"
 	case !b.InWindowRet && !overlap:
 		return "double-accept/window-closes-during-second-presentation"
